@@ -8,6 +8,7 @@ and line breaks before a token are passed inside the call that answers it); `gst
 -/
 import ZnVerif.Proofs.RenderGapLayout
 import ZnVerif.Proofs.RenderGapLit
+import ZnVerif.Proofs.RenderGapMulti
 import ZnVerif.Proofs.RenderLexRun
 import ZnVerif.Proofs.LexLines
 
@@ -86,6 +87,17 @@ theorem elLines_head (ind : Indent) (pos s k : Nat) (els : List El) :
         obtain ⟨rest, h1, _⟩ := litLines_cons_head s k x xs
         rw [h1]
         exact ⟨_, _, rfl, rfl, rfl⟩
+    | mcmt c =>
+      simp only [elLines]
+      cases hls : lineStarts (pos + c.pre.length) c.body with
+      | nil => simp only [litLines_nil, List.nil_append]; exact ih _
+      | cons x xs =>
+        obtain ⟨rest, h1, _⟩ := litLines_cons_head s k x xs
+        rw [h1]
+        exact ⟨_, _, rfl, rfl, rfl⟩
+
+theorem mcmt_len (c : MCmt) : c.chars.length = c.pre.length + c.body.length + c.suf.length ∧ 0 < c.suf.length := by
+  cases c <;> simp [MCmt.chars, MCmt.suf] <;> omega
 
 theorem break_len_pos (b : Break) : 0 < b.chars.length := by cases b <;> simp [Break.chars]
 
@@ -138,6 +150,27 @@ theorem elLines_starts (ind : Indent) (pos s k : Nat) (els : List El) :
         rcases List.mem_append.mp hx with hx | hx
         · have := (lineStarts_bound _ _ x hx).1; omega
         · have := h3 x hx; omega
+    | mcmt c =>
+      simp only [elLines]
+      obtain ⟨hlen, hsuf⟩ := mcmt_len c
+      obtain ⟨T, h1, h2, h3⟩ := ih (pos + c.chars.length) (litLines s k (lineStarts (pos + c.pre.length) c.body)).2.1
+        (litLines s k (lineStarts (pos + c.pre.length) c.body)).2.2
+      obtain ⟨hd, tl, he, hhd, _⟩ := elLines_head ind (pos + c.chars.length) (litLines s k (lineStarts (pos + c.pre.length) c.body)).2.1
+        (litLines s k (lineStarts (pos + c.pre.length) c.body)).2.2 es
+      rw [he] at h1 ⊢
+      have hT : starts tl = T := by simp only [starts, List.map_cons] at h1; exact (List.cons.inj h1).2
+      refine ⟨lineStarts (pos + c.pre.length) c.body ++ T, ?_, ?_, ?_⟩
+      · rw [lit_starts s k _ hd tl hhd, hT]; rfl
+      · rw [List.pairwise_append]
+        refine ⟨lineStarts_sorted _ c.body _ rfl, h2, ?_⟩
+        intro a ha b hb
+        have := (lineStarts_bound _ _ a ha).2
+        have := h3 b hb
+        omega
+      · intro x hx
+        rcases List.mem_append.mp hx with hx | hx
+        · have := (lineStarts_bound _ _ x hx).1; omega
+        · have := h3 x hx; omega
 
 /-- the line after the current one starts beyond the current position -/
 theorem elLines_second (ind : Indent) (pos s k : Nat) (els : List El) :
@@ -181,6 +214,10 @@ def next (ind : Indent) (c : GCtx) : El → GCtx
   | .lit _ t =>
     ⟨c.ity, c.dn ++ (litLines c.s c.k (Lines.lineStarts (c.pos + 1) t)).1, (litLines c.s c.k (Lines.lineStarts (c.pos + 1) t)).2.1,
       (litLines c.s c.k (Lines.lineStarts (c.pos + 1) t)).2.2, c.pos + (t.length + 2)⟩
+  | .mcmt m =>
+    ⟨c.ity, c.dn ++ (litLines c.s c.k (Lines.lineStarts (c.pos + m.pre.length) m.body)).1,
+      (litLines c.s c.k (Lines.lineStarts (c.pos + m.pre.length) m.body)).2.1,
+      (litLines c.s c.k (Lines.lineStarts (c.pos + m.pre.length) m.body)).2.2, c.pos + m.chars.length⟩
   | e => { c with pos := c.pos + (e.chars ind).length }
 
 /-- the final line table, as seen from here -/
@@ -195,6 +232,10 @@ def gstAt (ind : Indent) (src : Array Nat) : GCtx → List El → Nat → Lexer
   | c, .ws x :: es, j + 1 => gstAt ind src (c.next ind (.ws x)) es (j + 1)
   | c, .br b k :: es, j + 1 => gstAt ind src (c.next ind (.br b k)) es (j + 1)
   | c, .lit q t :: es, j + 1 => gstAt ind src (c.next ind (.lit q t)) es j
+  | c, .mcmt m :: es, j + 1 => gstAt ind src (c.next ind (.mcmt m)) es j
+
+/-- the token of a comment that may span lines, at `pos` -/
+def mcmtTok (m : MCmt) (pos : Nat) : Token := { type := cTypeComment, startIdx := pos, endIdx := pos + m.chars.length }
 
 /-- the token of a verbatim literal at `pos` -/
 def litTok (q : Literal.Quote) (t : List Nat) (pos : Nat) : Token :=
@@ -208,6 +249,8 @@ def gtkAt (ind : Indent) : GCtx → List El → Nat → Token
   | c, .br b k :: es, j => gtkAt ind (c.next ind (.br b k)) es j
   | c, .lit q t :: _, 0 => litTok q t c.pos
   | c, .lit q t :: es, j + 1 => gtkAt ind (c.next ind (.lit q t)) es j
+  | c, .mcmt m :: _, 0 => mcmtTok m c.pos
+  | c, .mcmt m :: es, j + 1 => gtkAt ind (c.next ind (.mcmt m)) es j
 
 /-- the line the token answered there starts on -/
 def gslAt (ind : Indent) : GCtx → List El → Nat → Nat
@@ -218,6 +261,8 @@ def gslAt (ind : Indent) : GCtx → List El → Nat → Nat
   | c, .br b k :: es, j => gslAt ind (c.next ind (.br b k)) es j
   | c, .lit _ _ :: _, 0 => c.dn.length
   | c, .lit q t :: es, j + 1 => gslAt ind (c.next ind (.lit q t)) es j
+  | c, .mcmt _ :: _, 0 => c.dn.length
+  | c, .mcmt m :: es, j + 1 => gslAt ind (c.next ind (.mcmt m)) es j
 
 theorem gstAt_zero (ind : Indent) (src : Array Nat) (c : GCtx) (els : List El) : gstAt ind src c els 0 = c.state src := by
   cases els with
@@ -242,6 +287,7 @@ theorem wfEls_tail {ind : Indent} {e : El} {es : List El} (h : WFEls ind (e :: e
   | ws c => exact h.2
   | br b k => exact h.2.2
   | lit q t => exact h.2
+  | mcmt m => exact h.2
 
 theorem next_pos (ind : Indent) (c : GCtx) (e : El) : (c.next ind e).pos = c.pos + (e.chars ind).length := by
   cases e with
@@ -249,6 +295,26 @@ theorem next_pos (ind : Indent) (c : GCtx) (e : El) : (c.next ind e).pos = c.pos
   | ws x => rfl
   | br b k => simp [GCtx.next, El.chars, units, Nat.add_assoc]
   | lit q t => simp [GCtx.next, El.chars]
+  | mcmt m => rfl
+
+open ZnVerif.Spec.Lines (lineStarts) in
+/-- the current line after a token that spans lines: unchanged, or the last line that starts inside it, not indented -/
+theorem litLines_lastG (s k p : Nat) (t : List Nat) :
+    ((litLines s k (lineStarts p t)).2.1 = s ∧ (litLines s k (lineStarts p t)).2.2 = k) ∨
+    ((litLines s k (lineStarts p t)).2.1 ≤ p + t.length ∧ (litLines s k (lineStarts p t)).2.2 = 0) := by
+  have hb := lineStarts_bound p t
+  generalize lineStarts p t = ls at hb
+  cases ls with
+  | nil => exact Or.inl ⟨rfl, rfl⟩
+  | cons x xs =>
+    right
+    refine ⟨?_, (litLines_cons_head s k x xs).choose_spec.2⟩
+    have : ∀ (ys : List Nat) (y k' : Nat), (∀ z ∈ y :: ys, z ≤ p + t.length) → (litLines y k' ys).2.1 ≤ p + t.length := by
+      intro ys
+      induction ys with
+      | nil => intro y k' h; exact h y List.mem_cons_self
+      | cons z zs ih => intro y k' h; exact ih z 0 (fun w hw => h w (List.mem_cons_of_mem _ hw))
+    exact this xs x 0 (fun z hz => (hb z hz).2)
 
 open ZnVerif.Spec.Lines (lineStarts) in
 /-- the current line after a literal: unchanged, or the last line that starts inside the literal, not indented -/
@@ -296,6 +362,14 @@ theorem GInv.next {ind : Indent} {src : Array Nat} {c : GCtx} {e : El} {es : Lis
         rcases hi with h | ⟨h, _⟩
         · exact Or.inl h
         · exact Or.inr ⟨h, rfl⟩
+    | mcmt m =>
+      show ItyOKI ind c.ity (litLines c.s c.k (Lines.lineStarts (c.pos + m.pre.length) m.body)).2.2
+      rcases litLines_lastG c.s c.k (c.pos + m.pre.length) m.body with ⟨_, h2⟩ | ⟨_, h2⟩
+      · rw [h2]; exact hi
+      · rw [h2]
+        rcases hi with h | ⟨h, _⟩
+        · exact Or.inl h
+        · exact Or.inr ⟨h, rfl⟩
   · cases e with
     | tok it => show c.s + ind.width * c.k ≤ c.pos + _; omega
     | ws x => show c.s + ind.width * c.k ≤ c.pos + _; omega
@@ -306,15 +380,23 @@ theorem GInv.next {ind : Indent} {src : Array Nat} {c : GCtx} {e : El} {es : Lis
       rcases litLines_last c.s c.k c.pos t with ⟨h1, h2⟩ | ⟨h1, h2⟩
       · rw [h1, h2]; omega
       · rw [h2]; omega
+    | mcmt m =>
+      show (litLines c.s c.k (Lines.lineStarts (c.pos + m.pre.length) m.body)).2.1 +
+        ind.width * (litLines c.s c.k (Lines.lineStarts (c.pos + m.pre.length) m.body)).2.2 ≤ c.pos + m.chars.length
+      obtain ⟨hlen, _⟩ := mcmt_len m
+      rcases litLines_lastG c.s c.k (c.pos + m.pre.length) m.body with ⟨h1, h2⟩ | ⟨h1, h2⟩
+      · rw [h1, h2]; omega
+      · rw [h2]; omega
 
 /-- blanks and line breaks are passed inside the call that answers the next token -/
 theorem nextToken_gap (ind : Indent) (src : Array Nat) (c : GCtx) (e : El) (es : List El) (h : GInv ind src c (e :: es))
-    (hg : ∀ it, e ≠ .tok it) (hg' : ∀ q t, e ≠ .lit q t) :
+    (hg : ∀ it, e ≠ .tok it) (hg' : ∀ q t, e ≠ .lit q t) (hg'' : ∀ m, e ≠ .mcmt m) :
     nextToken (c.state src) = nextToken ((c.next ind e).state src) := by
   apply nextToken_skip _ _ rfl rfl
   cases e with
   | tok it => exact absurd rfl (hg it)
   | lit q t => exact absurd rfl (hg' q t)
+  | mcmt m => exact absurd rfl (hg'' m)
   | ws x =>
     have hc : (c.state src).cur = x := by
       have : here (c.state src) = x :: renderEls ind es := by rw [h.text]; rfl
@@ -335,6 +417,12 @@ theorem nextToken_literal (ind : Indent) (src : Array Nat) (c : GCtx) (q : Liter
     nextToken (c.state src) = (.ok (litTok q t c.pos), (c.next ind (.lit q t)).state src) :=
   nextToken_lit q t h.wf.1 src c.ity c.dn c.s c.k c.pos (renderEls ind es)
     (by show here (c.state src) = _; rw [h.text]; simp [renderEls, El.chars])
+
+theorem nextToken_mcomment (ind : Indent) (src : Array Nat) (c : GCtx) (m : MCmt) (es : List El)
+    (h : GInv ind src c (.mcmt m :: es)) :
+    nextToken (c.state src) = (.ok (mcmtTok m c.pos), (c.next ind (.mcmt m)).state src) :=
+  nextToken_mcmt m h.wf.1 src c.ity c.dn c.s c.k c.pos (renderEls ind es)
+    (by show here (c.state src) = _; rw [h.text]; simp [renderEls, El.chars, MCmt.chars])
 
 theorem gsrc_size {ind : Indent} {src : Array Nat} {c : GCtx} (h : GInv ind src c []) : src.size = c.pos := by
   have := (here_nil h.text).2
@@ -472,6 +560,43 @@ theorem gstepOK_lit (ind : Indent) (src : Array Nat) (c : GCtx) (q : Literal.Quo
     rw [hpos'] at this
     exact this
 
+/-- the step that answers a comment that may span lines -/
+theorem gstepOK_mcmt (ind : Indent) (src : Array Nat) (c : GCtx) (m : MCmt) (es : List El)
+    (h : GInv ind src c (.mcmt m :: es)) :
+    StepOK (c.table ind (.mcmt m :: es)) (c.state src) (mcmtTok m c.pos) c.dn.length ((c.next ind (.mcmt m)).state src) := by
+  have hn := h.next
+  have hdn := gnext_dn_length ind c (.mcmt m)
+  have hsize : ((c.next ind (.mcmt m)).state src).lines.size = (c.next ind (.mcmt m)).dn.length + 1 := by
+    rw [gstate_lines]; simp
+  have hsize0 : (c.state src).lines.size = c.dn.length + 1 := by rw [gstate_lines]; simp
+  obtain ⟨⟨e0, h01, h0s⟩, h02⟩ := gstate_at ind c (.mcmt m :: es)
+  obtain ⟨⟨e1, h11, h1s⟩, h12⟩ := gstate_at ind (c.next ind (.mcmt m)) es
+  rw [gtable_next] at h11 h12
+  have hpre := gstate_pre ind src (c.next ind (.mcmt m)) es
+  rw [gtable_next] at hpre
+  have hpos' : (c.next ind (.mcmt m)).pos = c.pos + m.chars.length := rfl
+  refine ⟨nextToken_mcomment ind src c m es h, by omega, by omega, hpre, by omega, by omega, ?_, ?_, ?_, ?_, ?_⟩
+  · intro a ha
+    rw [h01] at ha; cases ha
+    rw [h0s]
+    show c.s ≤ c.pos
+    have := h.sk; omega
+  · intro b hb
+    exact h02 b hb
+  · intro a ha
+    rw [hsize, Nat.add_sub_cancel, h11] at ha; cases ha
+    rw [h1s]
+    show (c.next ind (.mcmt m)).s ≤ c.pos + m.chars.length
+    have := hn.sk
+    rw [hpos'] at this
+    omega
+  · show c.pos ≤ c.pos + m.chars.length; omega
+  · intro b hb
+    rw [hsize] at hb
+    have := h12 b hb
+    rw [hpos'] at this
+    exact this
+
 /-- **every step along the document** -/
 theorem gstep_ok (ind : Indent) (src : Array Nat) : ∀ (els : List El) (c : GCtx) (j : Nat), GInv ind src c els →
     StepOK (c.table ind els) (gstAt ind src c els j) (gtkAt ind c els j) (gslAt ind c els j) (gstAt ind src c els (j + 1)) := by
@@ -492,12 +617,12 @@ theorem gstep_ok (ind : Indent) (src : Array Nat) : ∀ (els : List El) (c : GCt
     intro c j h
     rw [← gtable_next]
     -- a gap element at the head: the same token, answered from one element further on
-    have gap : (∀ it, e ≠ .tok it) → (∀ q t, e ≠ .lit q t) → gtkAt ind c (e :: es) 0 = gtkAt ind (c.next ind e) es 0 →
+    have gap : (∀ it, e ≠ .tok it) → (∀ q t, e ≠ .lit q t) → (∀ m, e ≠ .mcmt m) → gtkAt ind c (e :: es) 0 = gtkAt ind (c.next ind e) es 0 →
         gslAt ind c (e :: es) 0 = gslAt ind (c.next ind e) es 0 →
         gstAt ind src c (e :: es) 1 = gstAt ind src (c.next ind e) es 1 →
         StepOK ((c.next ind e).table ind es) (c.state src) (gtkAt ind c (e :: es) 0) (gslAt ind c (e :: es) 0)
           (gstAt ind src c (e :: es) 1) := by
-      intro hg hg' e1 e3 e2
+      intro hg hg' hg'' e1 e3 e2
       have := ih (c.next ind e) 0 h.next
       rw [gstAt_zero] at this
       rw [e1, e2, e3]
@@ -506,7 +631,7 @@ theorem gstep_ok (ind : Indent) (src : Array Nat) : ∀ (els : List El) (c : GCt
         simp only [List.size_toArray, List.length_append, List.length_cons, List.length_nil]
         have := gnext_dn_length ind c e
         omega
-      refine ⟨by rw [nextToken_gap ind src c e es h hg hg']; exact this.step, this.pos, Nat.le_trans hsz this.mono, this.pre,
+      refine ⟨by rw [nextToken_gap ind src c e es h hg hg' hg'']; exact this.step, this.pos, Nat.le_trans hsz this.mono, this.pre,
         this.sl_lt, ?_, this.onStart, this.beforeNextStart, this.onLast, this.span, this.beforeNext⟩
       have := this.sl_ge
       omega
@@ -523,11 +648,11 @@ theorem gstep_ok (ind : Indent) (src : Array Nat) : ∀ (els : List El) (c : GCt
       | succ j => exact ih (c.next ind (.tok it)) j h.next
     | ws x =>
       cases j with
-      | zero => rw [gstAt_zero]; exact gap (fun it => by simp) (fun q t => by simp) rfl rfl rfl
+      | zero => rw [gstAt_zero]; exact gap (fun it => by simp) (fun q t => by simp) (fun m => by simp) rfl rfl rfl
       | succ j => exact ih (c.next ind (.ws x)) (j + 1) h.next
     | br b k' =>
       cases j with
-      | zero => rw [gstAt_zero]; exact gap (fun it => by simp) (fun q t => by simp) rfl rfl rfl
+      | zero => rw [gstAt_zero]; exact gap (fun it => by simp) (fun q t => by simp) (fun m => by simp) rfl rfl rfl
       | succ j => exact ih (c.next ind (.br b k')) (j + 1) h.next
     | lit q t =>
       cases j with
@@ -536,12 +661,20 @@ theorem gstep_ok (ind : Indent) (src : Array Nat) : ∀ (els : List El) (c : GCt
         rw [gstAt_zero, e1, gtable_next]
         exact gstepOK_lit ind src c q t es h
       | succ j => exact ih (c.next ind (.lit q t)) j h.next
+    | mcmt m =>
+      cases j with
+      | zero =>
+        have e1 : gstAt ind src c (.mcmt m :: es) (0 + 1) = (c.next ind (.mcmt m)).state src := gstAt_zero ind src _ es
+        rw [gstAt_zero, e1, gtable_next]
+        exact gstepOK_mcmt ind src c m es h
+      | succ j => exact ih (c.next ind (.mcmt m)) j h.next
 
 /-- number of tokens of an element list -/
 def tokCount : List El → Nat
   | [] => 0
   | .tok _ :: es => tokCount es + 1
   | .lit _ _ :: es => tokCount es + 1
+  | .mcmt _ :: es => tokCount es + 1
   | _ :: es => tokCount es
 
 theorem gtkAt_eof (ind : Indent) (src : Array Nat) : ∀ (els : List El) (c : GCtx) (j : Nat), GInv ind src c els →
@@ -560,6 +693,9 @@ theorem gtkAt_eof (ind : Indent) (src : Array Nat) : ∀ (els : List El) (c : GC
     | lit q t =>
       obtain ⟨j', rfl⟩ : ∃ j', j = j' + 1 := ⟨j - 1, by simp [tokCount] at hj; omega⟩
       exact ih (c.next ind (.lit q t)) j' h.next (by simp [tokCount] at hj; omega)
+    | mcmt m =>
+      obtain ⟨j', rfl⟩ : ∃ j', j = j' + 1 := ⟨j - 1, by simp [tokCount] at hj; omega⟩
+      exact ih (c.next ind (.mcmt m)) j' h.next (by simp [tokCount] at hj; omega)
 
 theorem gtkAt_toks (ind : Indent) : ∀ (els : List El) (c : GCtx),
     (List.range (tokCount els)).map (gtkAt ind c els) = elToks ind c.pos els := by
@@ -584,6 +720,10 @@ theorem gtkAt_toks (ind : Indent) : ∀ (els : List El) (c : GCtx),
       simp only [tokCount, List.range_succ_eq_map, List.map_cons, List.map_map, elToks]
       congr 1
       exact ih (c.next ind (.lit q t))
+    | mcmt m =>
+      simp only [tokCount, List.range_succ_eq_map, List.map_cons, List.map_map, elToks]
+      congr 1
+      exact ih (c.next ind (.mcmt m))
 
 theorem gstAt_final_lines (ind : Indent) (src : Array Nat) : ∀ (els : List El) (c : GCtx),
     (gstAt ind src c els (tokCount els + 1)).lines = (c.table ind els).toArray := by
@@ -598,6 +738,7 @@ theorem gstAt_final_lines (ind : Indent) (src : Array Nat) : ∀ (els : List El)
     | ws x => exact ih (c.next ind (.ws x))
     | br b k' => exact ih (c.next ind (.br b k'))
     | lit q t => exact ih (c.next ind (.lit q t))
+    | mcmt m => exact ih (c.next ind (.mcmt m))
 
 /-! ### the `Run` of a document -/
 
@@ -627,6 +768,7 @@ theorem renderEls_head_ne (ind : Indent) (els : List El) (hw : WFEls ind els) (h
       intro e; have := hw.1; rw [e] at this; revert this; decide
     | br b k => cases b <;> simp [renderEls, El.chars, Break.chars] <;> decide
     | lit q t => cases q <;> simp [renderEls, El.chars] <;> decide
+    | mcmt m => cases m <;> simp [renderEls, El.chars, MCmt.chars, MCmt.pre] <;> decide
 
 theorem ginv0 (ind : Indent) (k0 : Nat) (els : List El) (hwf : DocWF ind k0 els) :
     GInv ind (renderDoc ind k0 els).toArray (gctx0 ind k0) els := by
@@ -757,6 +899,11 @@ theorem elToks_types (ind : Indent) : ∀ (els : List El) (pos : Nat), WFEls ind
       simp only [elToks, List.mem_cons] at ht
       rcases ht with rfl | ht
       · cases q <;> simp [Literal.Quote.type] <;> decide
+      · exact ih _ hw.2 t ht
+    | mcmt m =>
+      simp only [elToks, List.mem_cons] at ht
+      rcases ht with rfl | ht
+      · show cTypeComment ≠ cTypeEOF; decide
       · exact ih _ hw.2 t ht
 
 end ZnVerif.Proofs.RenderLex
